@@ -260,7 +260,7 @@ func EncodeWriter(w io.Writer, privKey crypto.PrivKey, token Tokener, encFn code
 		return err
 	}
 
-	return ipld.EncodeStreaming(w, node, encFn)
+	return EncodeStreaming(w, node, encFn)
 }
 
 // ToDagCbor marshals the Tokener to the DAG-CBOR format.
